@@ -94,7 +94,7 @@ func checkC11(c *Ctx) {
 						c.ob("C11.R1", f.Name+"/delete#"+itoa(n), w.Pos(q.Pos()), false, "entries are removed from the visit map: counts must never decrease")
 					}
 				}
-				if callee := calleeOf(info, q); callee != nil && w.byObj[callee] == m.incVisit {
+				if callee := calleeOf(info, q); callee != nil && w.byObj[callee] == m.incVisit && m.incVisit != m.jump {
 					n++
 					okC := f == m.jump
 					c.ob("C11.R1", f.Name+"/caller#"+itoa(n), w.Pos(q.Pos()), okC, map[bool]string{true: "called from the jump executor", false: "the visit updater is called from " + f.Name + ": only jumps may count a visit"}[okC])
@@ -219,7 +219,7 @@ func checkC11(c *Ctx) {
 	walkNoLit(m.incVisit.Body, func(q ast.Node) bool {
 		if a, ok := q.(*ast.AssignStmt); ok && len(a.Lhs) == 2 && len(a.Rhs) == 1 {
 			if call, ok := a.Rhs[0].(*ast.CallExpr); ok {
-				if callee := calleeOf(info, call); callee != nil && callee.Name() == "FindNode" {
+				if callee := calleeOf(info, call); callee != nil && callee.Name() == "FindNode" && len(call.Args) == 1 && x.str(call.Args[0]) == recv+"."+m.fNode.Name() {
 					okIdent = identOf(a.Lhs[1])
 				}
 			}
